@@ -72,6 +72,14 @@ class ConvertGS(NxHarness):
             g = SymGraph(spec["adj"].copy()).to_real()
         else:
             g = nx.from_numpy_array(np.asarray(spec["adj"]))
+        if getattr(self, "order", "sorted") == "reversed":
+            # same graph, vertices inserted in decreasing label order: qubit k is the k-th vertex of G.nodes() (the
+            # convention of every conversion, nx.to_numpy_array's default), i.e. label n-1-k
+            g2 = nx.Graph()
+            g2.add_nodes_from(range(n - 1, -1, -1))
+            g2.add_edges_from(g.edges())
+            g = g2
+            a = [[a[n - 1 - i][n - 1 - j] for j in range(n)] for i in range(n)]
         qs = QuantumState(g, rep_type="g")
         qs.convert_representation("s")
         S.prove("rep-type-s", qs.rep_type == "s")
@@ -83,7 +91,7 @@ class ConvertGS(NxHarness):
         qs.convert_representation("g")
         S.prove("rep-type-g", qs.rep_type == "g")
         adj2 = nx.to_numpy_array(qs.rep_data.data, nodelist=sorted(qs.rep_data.data.nodes())).astype(int)
-        S.prove("s->g-recovers-graph", b_and(*[O.eq_bits(int(adj2[i, j]), a[i][j]) for i in range(n) for j in range(n)]))
+        S.prove("s->g-recovers-graph (vertex k = qubit k)", b_and(*[O.eq_bits(int(adj2[i, j]), a[i][j]) for i in range(n) for j in range(n)]))
 
 
 class StabToGraph(NxHarness):
@@ -188,6 +196,7 @@ def plan(tier):
         jobs.append((GraphToStab(n=n), {}))
     for n in ([2, 3] if q else [2, 3, 4]):
         jobs.append((ConvertGS(n=n), {}))
+        jobs.append((ConvertGS(n=n, order="reversed"), {}))
     for n in ([1, 2] if q else [1, 2, 3]):
         h = StabToGraph(n=n)
         h.parallel = n >= 3
